@@ -39,11 +39,20 @@ def d_pred(p):
             tuple(om.items()) if isinstance(om, dict) else None)
 
 
+def _num(x):
+    """floats as themselves, non-finite ones as text (nan != nan would make an unchanged object look changed)"""
+    try:
+        x = float(x)
+    except Exception:
+        return repr(x)
+    return x if x == x and abs(x) != float("inf") else repr(x)
+
+
 def d_func(f, with_value):
     rv = _get(f, "repeating_variables", None)
     return ("func", _get(f, "name"), d_sig(_get(f, "signature", {})),
             tuple(sorted(rv.items())) if isinstance(rv, dict) else None,
-            float(_get(f, "stored_value", 0)) if with_value else None)
+            _num(_get(f, "stored_value", 0)) if with_value else None)
 
 
 def d_tree(node, with_value=False):
@@ -149,7 +158,7 @@ def d_state_value(s):
     fl = {}
     for k, f in _get(s, "state_fluents", {}).items():
         fl[k] = (_get(f, "name"), tuple(_get(f, "signature", {}).keys()),
-                 tuple(sorted((_get(f, "repeating_variables", {}) or {}).items())), float(_get(f, "stored_value", 0)))
+                 tuple(sorted((_get(f, "repeating_variables", {}) or {}).items())), _num(_get(f, "stored_value", 0)))
     return (tuple(sorted(atoms)), tuple(sorted(fl.items())))
 
 
